@@ -173,6 +173,302 @@ def rule_r4(chk, db):
                     "the previous token are dropped or replaced" % short(callee_def(t)))
 
 
+# ------------------------------------------------------------------------------------------------------------------------------
+# R6: "no byte here yet" is not a verdict
+# ------------------------------------------------------------------------------------------------------------------------------
+
+ACCESSORS = ("first", "last", "get", "split_first", "split_last", "split_first_chunk", "first_chunk", "split_at_checked")
+TRANSPORT_VARIANTS = ("Underlying",)
+
+
+def _readers(db):
+    """the coroutine bodies that pull frames from the transport, with their helpers inlined"""
+    out = []
+    for b in db.bodies.values():
+        if b.crate != "s3s" or not (b.name.startswith(MP) or b.name.startswith(CH)) or "::tests::" in b.name:
+            continue
+        if any(short(callee_def(t)) == "next" and "stream" in callee_def(t).lower() for _, t in b.calls()):
+            out.append(b)
+    roots = inline.roots_with(db, out, lambda x: any(short(callee_def(t)) == "next" and "stream" in callee_def(t).lower() for _, t in x.calls()))
+    return roots
+
+
+def _pull_blocks(b):
+    return {bi for bi, t in b.calls() if short(callee_def(t)) == "next" and "stream" in callee_def(t).lower()}
+
+
+def _is_byte_view(b, op):
+    """the operand is (a view of) a byte buffer: Bytes, &[u8], Vec<u8>, BytesMut"""
+    p = flow.op_place(op)
+    if p is None:
+        return False
+    tys = [b.locals[p["l"]]] if p["l"] < len(b.locals) else []
+    for l, _ in (flow.resolve_chain(b, op) or []):
+        if l < len(b.locals):
+            tys.append(b.locals[l])
+    return any(("bytes::bytes::Bytes" in ty) or ("[u8]" in ty) or ("Vec<u8>" in ty) or ("BytesMut" in ty) for ty in tys)
+
+
+def _len_operand(b, op, lr, at_bi):
+    """the buffer key whose length the operand is, or None"""
+    from .. import lenrel
+    p = flow.op_place(op)
+    if p is None or p["proj"]:
+        return None
+    pt = lenrel.Point(at_bi, None)
+    d = lr.one_def(b, p["l"], pt)
+    if d is None or d[0] == "param":
+        return None
+    if d[0] == "stmt":
+        rv = d[3]["rv"]
+        if rv["k"] == "un" and rv.get("op") == "PtrMetadata":
+            return lr.key_of(b, rv["ops"][0], lenrel.Point(d[1], d[2])), rv["ops"][0]
+        if rv["k"] in ("use", "cast") and flow.op_place(rv["ops"][0]) is not None:
+            return _len_operand(b, rv["ops"][0], lr, d[1])
+        return None
+    t = d[2]
+    if callee_def(t) in lenrel.LEN_FNS and t["args"]:
+        return lr.key_of(b, t["args"][0], lenrel.Point(d[1], None)), t["args"][0]
+    return None
+
+
+def absent_edges(db, b):
+    """edges taken when the byte buffer at hand has no (further) byte: list of (edge, what, block).  Only tests whose outcome can really be
+    `absent` are listed (a look-ahead whose position is provably inside the buffer is not)."""
+    from .. import lenrel, paths
+    from .c04_panics import _lr
+    lr = _lr(db)
+    out = []
+    # (A) comparisons of a length with a constant
+    for bi in b.live_blocks():
+        t = b.blocks[bi]["term"]
+        if t["k"] != "switch":
+            continue
+        src = paths.switch_source(b, t)
+        if not src or src[0] != "bin":
+            continue
+        rv, pol, dbi = src[1], src[2], src[3]
+        op_ = rv["op"]
+        if op_ not in ("Eq", "Ne", "Lt", "Le", "Gt", "Ge"):
+            continue
+        for i in (0, 1):
+            lk = _len_operand(b, rv["ops"][i], lr, dbi)
+            c = flow.const_int_eval(b, rv["ops"][1 - i])
+            if lk is None or lk[0] is None or c is None or not _is_byte_view(b, lk[1]):
+                continue
+            o = op_ if i == 0 else {"Lt": "Gt", "Le": "Ge", "Gt": "Lt", "Ge": "Le"}.get(op_, op_)
+            # truth value of `len o c` that means len == 0 (and excludes len >= 1)
+            empty_when = {("Eq", 0): True, ("Ne", 0): False, ("Lt", 1): True, ("Ge", 1): False, ("Le", 0): True, ("Gt", 0): False}.get((o, c))
+            if empty_when is None:
+                continue
+            if lr.len_lower(b, lk[0], lenrel.Point(bi, None)) >= 1:
+                continue        # an earlier test on the same, unchanged buffer already excluded the empty case (match lowering re-tests)
+            vals = paths.bool_values(t, pol)
+            for lab, v in vals.items():
+                if v is empty_when:
+                    out.append(((bi, lab), "length test", bi))
+    for bi, t in b.calls():
+        d = callee_def(t)
+        sh = short(d)
+        if not t["args"]:
+            continue
+        # (B) is_empty / has_remaining
+        if sh in ("is_empty", "has_remaining") and _is_byte_view(b, t["args"][0]) and ("bytes::" in d or "core::slice" in d or "alloc::vec" in d or "core::str" in d):
+            o = flow.outcomes_of_call(b, bi)
+            for e in (o.get("true") if sh == "is_empty" else o.get("false")):
+                out.append((e, sh, bi))
+        # (C) Option-producing look-ahead
+        elif sh in ACCESSORS and d.startswith("core::slice::") and _is_byte_view(b, t["args"][0]):
+            pt = lenrel.Point(bi, None)
+            key = lr.key_of(b, t["args"][0], pt)
+            if key is not None:
+                if sh in ("first", "last", "split_first", "split_last") and lr.len_lower(b, key, pt) >= 1:
+                    continue
+                if sh == "get" and len(t["args"]) == 2:
+                    ip = flow.op_place(t["args"][1])
+                    ity = b.locals[ip["l"]] if ip is not None and ip["l"] < len(b.locals) else ("usize" if ip is None else "")
+                    if "usize" in ity and "Range" not in ity and lr.le_len(b, t["args"][1], key, pt, strict=True):
+                        continue
+            o = flow.outcomes_of_call(b, bi)
+            for e in o.get("None"):
+                out.append((e, sh + "() is None", bi))
+            for b2, t2 in b.calls():
+                d2 = callee_def(t2)
+                if not d2.startswith("core::option::Option") or not t2["args"]:
+                    continue
+                p2 = flow.op_place(t2["args"][0])
+                if p2 is None or p2["l"] not in o.carriers:
+                    continue
+                s2 = short(d2)
+                o2 = flow.outcomes_of_call(b, b2)
+                if s2 in ("is_none", "is_none_or"):
+                    es = o2.get("true")
+                elif s2 in ("is_some", "is_some_and"):
+                    es = o2.get("false")
+                elif s2 == "map_or" and len(t2["args"]) >= 2:
+                    c = flow.const_of(b, t2["args"][1])
+                    v = None if c is None else str(c.get("v"))
+                    es = o2.get("true") if v in ("1", "True", "true") else o2.get("false") if v in ("0", "False", "false") else set()
+                else:
+                    continue
+                for e in es:
+                    out.append((e, "%s().%s" % (sh, s2), b2))
+    return out
+
+
+def _verdict_blocks(b):
+    """blocks that conclude: a (non-transport) error is built, or the reader completes normally"""
+    out = {}
+    for bi, si, st in b.stmts():
+        rv = st["rv"]
+        if rv["k"] == "agg" and rv.get("agg") == "adt" and rv.get("adt", "").endswith("Error") and rv.get("adt", "").startswith("s3s::") and \
+                rv.get("variant") not in TRANSPORT_VARIANTS:
+            out[bi] = "%s::%s" % (short(rv["adt"]), rv.get("variant"))
+    for w in flow.return_writes(b):
+        if w["kind"] in ("Ok",) and w["bi"] not in out:
+            out[w["bi"]] = "normal completion"
+    return out
+
+
+def rule_r6(chk, db):
+    """absence of a byte in the current buffer leads to another pull, never directly to a verdict"""
+    readers = _readers(db)
+    chk.floor("R6", len(readers), 4, "stream-pulling reader bodies in the multipart / chunk modules")
+    n = 0
+    for b in readers:
+        pulls = _pull_blocks(b)
+        verdicts = _verdict_blocks(b)
+        seen = set()
+        for e, what, tb in absent_edges(db, b):
+            if (e, tb) in seen:
+                continue
+            seen.add((e, tb))
+            n += 1
+            try:
+                start = flow.edge_target(b, e)
+            except KeyError:
+                continue
+            r = flow.reach(b, [start], stop_blocks=frozenset(pulls))
+            hit = sorted(x for x in r if x in verdicts and x not in pulls)
+            # a transport that has ended is a verdict the reader may take: those paths pass a pull and are cut above
+            name = b.name.replace("s3s::http::", "").replace("::{closure#0}", "")
+            chk.verdict(not hit, "R6", "%s:%s@%d" % (name, what.replace(" ", "-"), _line_key(b, tb)), b.loc(hit[0]) if hit else b.loc(tb),
+                        "when the buffer at hand has no further byte (%s, line %s) the reader concludes `%s` without pulling another frame: the outcome "
+                        "depends on where the transport cut the body (an empty frame or a cut right here changes it)"
+                        % (what, b.loc(tb).split(":")[-1], verdicts[hit[0]] if hit else ""))
+    chk.floor("R6.tests", n, 1, "emptiness / look-ahead tests in the readers")
+
+
+def _line_key(b, bi):
+    """ordinal of the test among the tests of its kind in the body (stable under edits elsewhere in the file)"""
+    return sorted(b.live_blocks()).index(bi)
+
+
+# ------------------------------------------------------------------------------------------------------------------------------
+# R7: a token longer than one byte is never searched for inside a single frame
+# ------------------------------------------------------------------------------------------------------------------------------
+
+MULTI_SEARCH = ("memchr::memmem::find", "memchr::memmem::find_iter", "memchr::memmem::rfind", "memchr::memmem::rfind_iter", "core::str::<impl str>::find",
+                "core::str::<impl str>::rfind", "core::str::<impl str>::split_once", "core::slice::<impl [T]>::windows", "core::str::<impl str>::contains")
+SINGLE_SEARCH = ("memchr::memchr::memchr", "memchr::memchr::memchr_iter", "memchr::memchr::memchr2", "memchr::memchr::memchr3", "memchr::memchr::memrchr")
+
+
+def _needle_len(b, t):
+    """length of the constant needle of a multi-byte-capable search; None when it is not a constant"""
+    d = callee_def(t)
+    idx = 1
+    if d.endswith("windows"):
+        return flow.const_int_eval(b, t["args"][1]) if len(t["args"]) > 1 else None
+    if len(t["args"]) <= idx:
+        return None
+    c = flow.const_of(b, t["args"][idx])
+    if c is None:
+        return None
+    if c.get("c") in ("str", "bstr"):
+        return len(c["v"].encode("utf-8", "surrogateescape")) if isinstance(c["v"], str) else len(c["v"])
+    if c.get("c") == "int" and c.get("ty") in ("char", "u8"):
+        return 1
+    return None
+
+
+def rule_r7(chk, db):
+    """token searches in the per-frame code of the readers: one-byte needles, or a haystack that includes the bytes carried from earlier frames"""
+    readers = _readers(db)
+    n = 0
+    for r in readers:
+        root = db.bodies.get(r.name) or r
+        for b in [r] + [x for x in db.nested(root, include_self=False)]:
+            for bi, t in b.calls():
+                d = callee_def(t)
+                if d in SINGLE_SEARCH:
+                    n += 1
+                    chk.ok("R7", "%s:%s" % (b.name.replace("s3s::http::", ""), short(d)), b.loc(bi), "one-byte needle", nontrivial=False)
+                    continue
+                if d not in MULTI_SEARCH or not t["args"]:
+                    continue
+                n += 1
+                k = _needle_len(b, t)
+                sl = flow.backward(b, t["args"][0], at=bi)
+                roots = set(sl.locals) | {l for l, _ in sl.params}
+                tys = [b.locals[l] for l in roots if l < len(b.locals)]
+                carried = any(("Vec<u8>" in ty or "BytesMut" in ty or "String" in ty) for ty in tys)
+                if b.kind == "Closure" and any(l == 1 and pr for l, pr in sl.params):
+                    carried = True      # a captured variable of the enclosing reader (not the frame the closure was handed): not judged
+                ok = (k == 1) or carried
+                chk.verdict(ok, "R7", "%s:%s" % (b.name.replace("s3s::http::", ""), short(d)), b.loc(bi),
+                            "a token of %s bytes is searched for inside one frame only (%s): when the transport cuts the body inside the token it is not found"
+                            % (k if k is not None else "several", short(d)))
+    chk.floor("R7", n, 2, "token searches in the reader bodies and their closures")
+
+
+# ------------------------------------------------------------------------------------------------------------------------------
+# R8: the scan over candidate positions looks at every candidate
+# ------------------------------------------------------------------------------------------------------------------------------
+
+def rule_r8(chk, db):
+    """file-part scanner: the loop over candidate delimiter positions is left only when the candidates are exhausted or one of them matched
+    (completely, or as a prefix that is carried)"""
+    from .c08 import natural_loops
+    gens = [b for b in _readers(db) if b.name.startswith(MP) and any(_is_yield(t) for _, t in b.calls())]
+    if len(gens) != 1:
+        raise AnchorMissing("file-part scanner generator: %d candidates" % len(gens))
+    g = gens[0]
+    loops = natural_loops(g)
+    n = 0
+    for nb, t in g.calls():
+        if not callee_def(t).endswith("iterator::Iterator::next") or not t["args"]:
+            continue
+        sl = flow.backward(g, t["args"][0], at=nb)
+        if not any(callee_def(c) in SEARCH for _, c, _ in sl.calls):
+            continue
+        inner = None
+        for head, blocks in loops.items():
+            if nb in blocks and (inner is None or len(blocks) < len(inner)):
+                inner = blocks
+        if inner is None:
+            continue
+        n += 1
+        o = flow.outcomes_of_call(g, nb)
+        allowed = set(o.get("None"))
+        for b2, t2 in g.calls():
+            if b2 in inner and short(callee_def(t2)) in ("starts_with", "eq", "ends_with") and callee_def(t2).startswith(("core::slice", "core::cmp", "core::str", "bytes::")):
+                allowed |= flow.outcomes_of_call(g, b2).get("true")
+        outside = frozenset(x for x in g.live_blocks() if x not in inner)
+        r = flow.reach_from_edges(g, [e for e in o.get("Some") if e not in allowed], removed=frozenset(allowed), stop_blocks=outside)
+        bad = []
+        for x in sorted(r & inner):
+            for lab, tb in g.succ_edges(x):
+                if tb not in inner and not g.blocks[tb]["cleanup"] and (x, lab) not in allowed:
+                    term = g.blocks[tb]["term"]
+                    if term["k"] == "unreachable" and not g.blocks[tb]["stmts"]:
+                        continue
+                    bad.append((x, tb))
+        chk.verdict(not bad, "R8", "candidate-scan#%d" % n, g.loc(bad[0][0]) if bad else g.loc(nb),
+                    "the scan over candidate delimiter positions is abandoned before all candidates were looked at and without one of them matching: "
+                    "a delimiter (or its first bytes at the end of the frame) behind an earlier carriage return is delivered as file content")
+    chk.floor("R8", n, 1, "candidate loops (iteration over search hits) in the file-part scanner")
+
+
 def rule_r5(chk, db):
     """file-part scanner: a possible boundary prefix at the end of a frame is kept and re-scanned together with the next frame"""
     gens = [b for b in db.grep("transform_stream::yielder::Yielder") if b.crate == "s3s" and b.name.startswith(MP) and any(_is_yield(t) for _, t in b.calls())]
@@ -215,11 +511,17 @@ def run(chk, db, tier):
     chk.rule("R3", "try_parse hands the unconsumed rest of the parse buffer to the file-part scanner")
     chk.rule("R4", "chunk reader: the leftover bytes given to each read are what the previous read returned")
     chk.rule("R5", "file-part scanner: a boundary prefix at the end of a frame is carried and re-scanned with the next frame")
+    chk.rule("R6", "absence is not a verdict: where a reader finds no (further) byte in the buffer at hand, every path pulls another frame before it reports a format error or completes")
+    chk.rule("R7", "token searches in per-frame code use one-byte needles, or run over a buffer that includes the bytes carried from earlier frames")
+    chk.rule("R8", "file-part scanner: the loop over candidate delimiter positions ends only by exhaustion or by a (complete or carried-prefix) match")
     chk.guard("R1", rule_r1, db)
     chk.guard("R2", rule_r2, db)
     chk.guard("R3", rule_r3, db)
     chk.guard("R4", rule_r4, db)
     chk.guard("R5", rule_r5, db)
+    chk.guard("R6", rule_r6, db)
+    chk.guard("R7", rule_r7, db)
+    chk.guard("R8", rule_r8, db)
 
 
 META = {
